@@ -308,6 +308,8 @@ def _texts(draw):
             out.append(extra[i])
     out.extend(extra[len(parts):])
     text = "".join(out)
+    if draw(st.integers(0, 11)) == 0:
+        text = "\ufeff" + text      # a text source that begins with U+FEFF: the same character for every kind of text source
     if draw(st.integers(0, 3)) > 0:
         # most cases: no code point the input stream itself reports (known finding C05-invalid-codepoint-position
         # would otherwise mask the position comparison in almost half of the cases)
